@@ -62,6 +62,8 @@ def run(ck: Checker, prog: Program, tier: str):
     with ck.borrow(c05, "C08.R2+"):
         ck.guard(S.check_mask_lockstep, ck, prog, "C05.R4")     # an absent peak invalidates the window's peak entry and nothing else
         ck.guard(S.check_estimators, ck, prog, "C05.R3")
+    from .common import check_identity_comparisons as _cic
+    ck.guard(_cic, ck, prog, "C08.R1", "C08")
 
 
 def _ex(prog, f, cls, src, self_name="self"):
